@@ -29,7 +29,7 @@ def mutate(text, cause, rnd):
             return decl + "@\n" + rules + epi
         if k == 1:
             j = rnd.choice(idx)
-            rule_lines[j] = rule_lines[j].replace(" ;", " { unbalanced ;")
+            rule_lines[j] = rule_lines[j].rstrip().rstrip(";") + " { unbalanced"
             return decl + "\n".join(rule_lines)   # brace never closed: swallows the rest
         if k == 2:
             j = rnd.choice(idx)
@@ -37,7 +37,7 @@ def mutate(text, cause, rnd):
             return decl + "\n".join(rule_lines) + epi
         if k == 3:
             j = rnd.choice(idx)
-            rule_lines[j] = rule_lines[j].replace(" ;", " 'ab' ;")
+            rule_lines[j] = rule_lines[j].replace(" :", " : 'ab'", 1)
             return decl + "\n".join(rule_lines) + epi
         return decl + "%union { never closed\n" + rules + epi
     if cause == "syntax":
@@ -101,8 +101,8 @@ def run(ctx, replay):
                 text = open(os.path.join(out, rec["file"])).read()
                 for rep in range(ctx.pick(2, 5) if cause in ("lexical", "syntax") else 1):
                     t = mutate(text, cause, rnd)
-                    if t is None:
-                        continue
+                    if t is None or (cause != "none" and t == text):
+                        continue      # the cause could not be planted into this file
                     for opts in (["", "-u", "-o"] if lang == "go" else [""]):
                         todo.append((lang, cause, opts, t, rec["file"]))
     cli = ctx.cli()
